@@ -87,6 +87,20 @@ def cases(draw, closed_only, allow_verify):
     case["fail_partial"] = draw(st.sampled_from([False, False, False, True]))
     # placement by hard link instead of copy (cache type hardlink); applies to hashfile.transfer() only
     case["hardlink"] = draw(st.sampled_from([False, False, True]))
+    # deliberate shape: one requested directory loses a file on BOTH sides (its .dir object is withheld although
+    # nothing failed while sending it) while the injected upload failures hit objects OUTSIDE that directory
+    # (a loose file, another directory's file or .dir object) in the same transfer
+    case["withhold"] = None
+    if nobj >= 2 and draw(st.integers(0, 7)) == 3:
+        t = draw(st.integers(0, ntrees - 1))
+        case["withhold"] = [t, draw(st.integers(0, 11))]
+        case["request"] = sorted({*case["request"], t, draw(st.integers(0, nobj - 1))})
+        case["dst_init"] = [i for i in case["dst_init"] if i != t]
+        if case["src_kind"] in ("staging", "refdb"):
+            case["src_kind"] = draw(st.sampled_from(["local", "generic"]))
+        if draw(st.integers(0, 3)) != 0:
+            case["fail"] = sorted(draw(st.sets(st.integers(0, 15), min_size=1, max_size=2)))
+            case["abort_at"] = None
     if allow_verify and draw(st.integers(0, 3)) == 0:
         case["verify"] = True
         case["corrupt"] = sorted(draw(st.sets(st.integers(0, 15), min_size=1, max_size=2)))
@@ -261,6 +275,16 @@ def execute(case, ctx, d, monitor_closure=True, partial_on_generic=False):  # no
                 os.chmod(p, 0o644)
                 os.unlink(p)
                 o.src_removed.add(oid)
+        if case.get("withhold"):
+            wt = tops[case["withhold"][0] % len(tops)]
+            kids = sorted(wt["files"])
+            if wt["isdir"] and kids:
+                oid = kids[case["withhold"][1] % len(kids)]
+                p = src.oid_to_path(oid)
+                if os.path.exists(p):
+                    os.chmod(p, 0o644)
+                    os.unlink(p)
+                    o.src_removed.add(oid)
         for idx in case["corrupt"]:
             oid = file_ids[idx % len(file_ids)] if file_ids else None
             if oid and oid not in o.src_removed:
@@ -329,6 +353,10 @@ def execute(case, ctx, d, monitor_closure=True, partial_on_generic=False):  # no
 
     # fault indices point into the ids that have to move (so plans usually hit), else into all ids
     moving = sorted(o.requested_expanded - set(o.dst_before)) or all_ids
+    if case.get("withhold") and not staging_mode:
+        wt = tops[case["withhold"][0] % len(tops)]
+        outside = [m for m in moving if m != wt["oid"] and m not in wt["files"] and m not in o.src_removed]
+        moving = outside or moving
     fail = {moving[i % len(moving)] for i in case["fail"]}
     o.fail = fail
     o.closure_breaks = []
